@@ -63,7 +63,7 @@ def finding_matches(entry, prop, v):
     return (
         entry.get("property") == prop
         and entry.get("component") == v.get("component")
-        and entry.get("kind") == v.get("kind")
+        and (entry.get("kind") == v.get("kind") or v.get("kind") in (entry.get("kinds") or ()))
         and entry.get("trigger") == v.get("trigger")
     )
 
